@@ -22,7 +22,7 @@ def solve_aquarium(height, width, blocks, clue_row, clue_col):
     for x in range(width):
         if clue_col[x] >= 0:
             solver.ensure(count_true(is_water[:, x]) == clue_col[x])
-    block_id = [[-1 for _ in range(width)] for _ in range(width)]
+    block_id = [[-1 for _ in range(width)] for _ in range(height)]
     for i, block in enumerate(blocks):
         for y, x in block:
             block_id[y][x] = i
